@@ -161,6 +161,37 @@ reading rules: `harness/extractors/exprs_chromsort.py` (primitives in `lean/CnvV
   being a comparison (or `&` / `|` / `~` of comparisons, or a name bound to one, with or without `.values`), means "where mask holds, x
   becomes v" -- a later assignment overrides an earlier one where both masks hold, as in numpy; a comparison with a
   missing value (NaN) is outside the reading (the theorems about these functions assume the columns present).
+
+Typed reading (class `GFn`, used by the extractors `exprs_bygene.py` / `exprs_genemetrics.py`; property C16).  The code
+read here is index / selection logic, not arithmetic, so values carry a type (Rat, Int, Nat, String, List _):
+* a field of a table row `row.log2` / `row["log2"]` / a column used elementwise `self.data["log2"]` becomes the parameter
+  `row_log2` / `log2`, typed by the column (log2, depth, weight: Rat; start, end, probes: Int; gene, chromosome: String);
+  a plain name that is never bound is a parameter whose type is taken from what it is compared / combined with;
+* a name that is indexed, measured or searched is a list: `v[0]` is `v.headD 0`, `v[-1]` is `v.getLastD 0`, `len(v)` is
+  `v.length` (the length of a table that is not otherwise read is the parameter `v_len`), `x in v` is `x ∈ v`, `sum(c for s in v)` is `v.countP c`, `a + b` on lists is `++`, `tuple(v)` / `list(v)` is `v`,
+  a tuple / list literal is a list literal from which `np.nan` is dropped (NaN is equal to no name);
+* the parameters of a generated definition come in a canonical order (the enclosing function's own parameters and the
+  loop targets first, then row fields / columns / lengths in table order, then other free names by first use);
+* truthiness: of a number `≠ 0`, of a string `≠ ""`, of a list `≠ []`; `a < b < c` is `a < b ∧ b < c`; a comparison bound to a
+  name and updated with `|=` / `&=` is the disjunction / conjunction (elementwise reading of a boolean mask);
+* in a function of WHOLE COLUMNS (`segment_mean`) `table["log2"]` is the list of the column's values, `len(table)` the
+  parameter `table_len`, `col.sum()` is `col.sum`, `col.mean()` is `col.sum / col.length`, `col.any()` is "some value ≠ 0",
+  `np.average(a, weights=w)` is `(zipWith (·*·) a w).sum / w.sum`, `col.iat[-1]` is `col[-1]`; the result is an `Option`:
+  `return np.nan` is `none`;
+* in such a function `outrow = table[0].copy()` starts a ROW RECORD, `outrow["col"] = e` sets a field, and yielding the
+  record yields the tuple (chromosome, start, end, gene, log2, depth, weight, probes) of its fields, a field never set
+  being the first row's (`col.headD`); a table is true when `table_len ≠ 0`; the result of a named function of another
+  module bound to a name (`segmean = segment_mean(rows, skip_low)`) is a parameter of the declared type; a float
+  (NaN included) `is None` is false; a parameter whose name is a Lean keyword gets a trailing underscore (`end_`);
+* `int(e)`, `math.ceil(e)` of an Int-typed `e` are `e`; float literals are the exact doubles; `params.ANTITARGET_ALIASES`
+  (not a plain literal, so not inlined) is the definition of that name in Generated/Consts.lean;
+* a loop body is read as ONE ITERATION: a function from the loop-carried variables (the names bound before the loop and
+  re-bound in it) to the list of values it yields (`yield v`, or `acc.append(v)`) and the new values of those variables;
+  `continue` ends the iteration, `logging.*(...)` calls and `if`s that only log are skipped, an `if` is a case split of the
+  whole rest of the body; `"depth" in table` / `"weight" in table` hold (the models' tables carry both columns: the harness
+  models a missing one as the constant 1); `return table[mask]` is read as the predicate "the row is kept";
+* a yielded table slice `wrapper(table.iloc[a:b])` is read as the pair of positions `(a, some b)`, `table.iloc[a:]` as
+  `(a, none)` -- which rows those positions select is the model's `slice` / `drop`.
 """
 from __future__ import annotations
 
@@ -2069,3 +2100,430 @@ def emit_values(repo, o, specs):
             continue
         o.lines.append(text)
         o.info[lean] = {"params": params}
+# ---------------------------------------------------------------------------------------------------------------------
+# typed reading (see the module docstring): conditions, list expressions, one iteration of a loop that yields
+
+
+def _lean_str(s):
+    import json
+    return json.dumps(s, ensure_ascii=False)
+
+
+class GFn:
+    """translator state for one generated definition: parameters (in order of first use) with their types"""
+    COLUMNS = {"log2": "Rat", "depth": "Rat", "weight": "Rat", "gene": "String", "chromosome": "String",
+               "start": "Int", "end": "Int", "probes": "Int"}
+    NUMERIC = ("Rat", "Int", "Nat")
+    # constants of cnvlib/params.py that are not plain literals (plain ones are inlined by translate.parse): they are
+    # read as the definitions of Generated/Consts.lean, which the generated file must import
+    PARAMS = {"ANTITARGET_ALIASES": "List String", "IGNORE_GENE_NAMES": "List String", "ANTITARGET_NAME": "String"}
+
+    def __init__(self, hints=None, num="Int", elem="Nat", table_names=("self", "data"), column_lists=False, first=()):
+        self.column_lists = column_lists   # `table["col"]` is the whole column (a list), not one row's value
+        self.first = [n for n in first]    # names that lead the signature: the function's own parameters, loop targets
+        self.derived = {}                  # parameter -> rank of the column / length it stands for
+        self.params = {}            # name -> type or None (not yet known)
+        self.hints = dict(hints or {})
+        self.num = num              # type of a numeric parameter nothing else determines
+        self.elem = elem            # element type of a list parameter nothing else determines
+        self.table_names = set(table_names)
+
+    # -- parameters ----------------------------------------------------------------------------------------------
+    LEAN_KEYWORDS = {"end", "from", "at", "in", "fun", "do", "then", "else", "if", "let", "have", "show", "open", "by"}
+    RECORD_ORDER = ["chromosome", "start", "end", "gene", "log2", "depth", "weight", "probes"]
+
+    def param(self, name, typ=None, col=None):
+        if name in self.LEAN_KEYWORDS:
+            name += "_"
+        if col is not None and name not in self.derived:
+            self.derived[name] = -1 if col == "len" else self.RECORD_ORDER.index(col)
+        if name not in self.params:
+            self.params[name] = self.hints.get(name, typ)
+        elif self.params[name] is None and typ is not None:
+            self.params[name] = typ
+        return name, self.params[name]
+
+    def _settle(self, text, typ, want):
+        """an untyped parameter takes the type of what it meets"""
+        if typ is None and want is not None and want != "num" and text in self.params and self.params[text] is None:
+            self.params[text] = want
+            return want
+        return typ
+
+    def _unify(self, a, ta, b, tb):
+        ta = self._settle(a, ta, tb)
+        tb = self._settle(b, tb, ta)
+        if ta == "num":
+            ta = tb
+        if tb == "num":
+            tb = ta
+        return ta if ta is not None else tb
+
+    def _as_list(self, e, env, elem=None):
+        t, ty = self.expr(e, env)
+        if ty is None:
+            ty = "List " + (elem if elem not in (None, "num") else self.elem)
+            self.params[t] = ty
+        if not str(ty).startswith("List "):
+            raise Untranslatable(f"`{ast.unparse(e)}` is used as a list but has type {ty}")
+        return t, ty
+
+    @staticmethod
+    def _zero(elem):
+        return {"String": '""'}.get(elem, "0")
+
+    # -- expressions ---------------------------------------------------------------------------------------------
+    def expr(self, e, env):
+        """(Lean term, type); type None = a parameter whose type is not known yet, "num" = an integer literal"""
+        if isinstance(e, ast.Constant):
+            if isinstance(e.value, bool) or e.value is None:
+                raise Untranslatable(f"constant {e.value!r} in value position")
+            if isinstance(e.value, int):
+                return (str(e.value) if e.value >= 0 else f"({e.value})"), "num"
+            if isinstance(e.value, float):
+                return _rat(e.value), "Rat"
+            if isinstance(e.value, str):
+                return _lean_str(e.value), "String"
+            raise Untranslatable(f"constant {e.value!r}")
+        if isinstance(e, ast.Name):
+            if e.id in env:
+                v = env[e.id]
+                if len(v) == 3 and v[0] == "LAZY":   # bound outside the piece being read: translated where it is used
+                    return self.expr(v[1], v[2])
+                return v
+            return self.param(e.id)
+        if isinstance(e, ast.Attribute) and isinstance(e.value, ast.Name) and e.value.id == "params" \
+                and e.attr in self.PARAMS:
+            return e.attr, self.PARAMS[e.attr]   # the constant of Generated/Consts.lean
+        if isinstance(e, ast.Attribute) and e.attr in self.COLUMNS and isinstance(e.value, ast.Name) \
+                and e.value.id not in env:
+            if self.column_lists:
+                return self.param(e.attr, "List " + self.COLUMNS[e.attr], col=e.attr)
+            return self.param(f"{e.value.id}_{e.attr}", self.COLUMNS[e.attr], col=e.attr)
+        if isinstance(e, ast.Subscript):
+            sl = e.slice
+            if isinstance(sl, ast.Constant) and isinstance(sl.value, str) and sl.value in self.COLUMNS:
+                # a column of the table at hand (`self.data["log2"]`), or a field of a row (`row["log2"]`)
+                base = e.value
+                if isinstance(base, ast.Attribute) and base.attr == "data":
+                    base = base.value
+                if isinstance(base, ast.Name) and base.id not in env:
+                    if self.column_lists:
+                        return self.param(sl.value, "List " + self.COLUMNS[sl.value], col=sl.value)
+                    if base.id in self.table_names:
+                        return self.param(sl.value, self.COLUMNS[sl.value], col=sl.value)
+                    return self.param(f"{base.id}_{sl.value}", self.COLUMNS[sl.value], col=sl.value)
+            if isinstance(e.value, ast.Attribute) and e.value.attr in ("iat", "iloc"):
+                # `column.iat[0]` / `column.iat[-1]`: first / last element, like `column[0]` / `column[-1]`
+                return self.expr(ast.Subscript(value=e.value.value, slice=sl, ctx=ast.Load()), env)
+            idx = None
+            if isinstance(sl, ast.Constant) and isinstance(sl.value, int):
+                idx = sl.value
+            elif isinstance(sl, ast.UnaryOp) and isinstance(sl.op, ast.USub) and isinstance(sl.operand, ast.Constant):
+                idx = -sl.operand.value
+            if idx in (0, -1):
+                t, ty = self._as_list(e.value, env)
+                el = ty[5:]
+                return f"({t}.{'headD' if idx == 0 else 'getLastD'} {self._zero(el)})", el
+            raise Untranslatable("subscript " + ast.unparse(e))
+        if isinstance(e, ast.UnaryOp) and isinstance(e.op, ast.USub):
+            t, ty = self.expr(e.operand, env)
+            return f"(-{t})", ty
+        if isinstance(e, (ast.Tuple, ast.List)):
+            items = []
+            el = None
+            for x in e.elts:
+                if ast.unparse(x) in ("np.nan", "numpy.nan", "float('nan')", "math.nan"):
+                    continue
+                t, ty = self.expr(x, env)
+                el = el or ty
+                items.append(t)
+            return "[" + ", ".join(items) + "]", "List " + (el or self.elem)
+        if isinstance(e, ast.BinOp):
+            a, ta = self.expr(e.left, env)
+            b, tb = self.expr(e.right, env)
+            if isinstance(e.op, ast.Add) and (str(ta).startswith("List ") or str(tb).startswith("List ")):
+                ty = ta if str(ta).startswith("List ") else tb
+                self._settle(a, ta, ty)
+                self._settle(b, tb, ty)
+                return f"({a} ++ {b})", ty
+            sym = {ast.Add: "+", ast.Sub: "-", ast.Mult: "*"}.get(type(e.op))
+            if sym is None:
+                raise Untranslatable(ast.unparse(e))
+            ty = self._unify(a, ta, b, tb)
+            if ty is not None and ty != "num" and ty not in self.NUMERIC:
+                raise Untranslatable(f"arithmetic on {ty}: " + ast.unparse(e))
+            return f"({a} {sym} {b})", ty
+        if isinstance(e, ast.Call):
+            f = ast.unparse(e.func)
+            args = e.args
+            if f in ("abs", "np.abs", "np.absolute") and len(args) == 1 and not e.keywords:
+                t, ty = self.expr(args[0], env)
+                return f"(if {t} < 0 then -{t} else {t})", ty
+            if f in ("tuple", "list") and len(args) == 1 and not e.keywords:
+                return self._as_list(args[0], env, "String" if self.elem is None else None)
+            if f == "len" and len(args) == 1:
+                a0 = args[0]
+                if isinstance(a0, ast.Name) and a0.id not in env and not str(
+                        self.params.get(a0.id) or self.hints.get(a0.id) or "").startswith("List "):
+                    return self.param(a0.id + "_len", "Nat", col="len")   # the length of a table: a parameter of its own
+                t, _ty = self._as_list(a0, env)
+                return f"{t}.length", "Nat"
+            if f in ("int", "math.ceil", "np.ceil", "float") and len(args) == 1 and not e.keywords:
+                t, ty = self.expr(args[0], env)
+                if ty in ("Int", "Nat") or (f == "float" and ty == "Rat"):
+                    return t, ty
+                raise Untranslatable(f"{f} of a value of type {ty}: " + ast.unparse(e))
+            if isinstance(e.func, ast.Attribute) and e.func.attr in ("sum", "mean", "any") and not args and not e.keywords:
+                t, ty = self.expr(e.func.value, env)
+                if str(ty).startswith("List ") and ty[5:] in self.NUMERIC:
+                    if e.func.attr == "sum":
+                        return f"{t}.sum", ty[5:]
+                    if e.func.attr == "mean" and ty == "List Rat":
+                        return f"({t}.sum / ({t}.length : Rat))", "Rat"
+                    if e.func.attr == "any":
+                        return f"({t}.any (fun x => decide (x ≠ 0)))", "Bool"
+                raise Untranslatable(f"reduction {e.func.attr} of {ty}: " + ast.unparse(e))
+            if f in ("np.average", "numpy.average") and len(args) == 1 and len(e.keywords) == 1 \
+                    and e.keywords[0].arg == "weights":
+                a, ta = self.expr(args[0], env)
+                w, tw = self.expr(e.keywords[0].value, env)
+                if ta == "List Rat" and tw == "List Rat":
+                    return f"((List.zipWith (· * ·) {a} {w}).sum / {w}.sum)", "Rat"
+                raise Untranslatable("np.average of " + f"{ta}, {tw}")
+            if f == "sum" and len(args) == 1 and isinstance(args[0], ast.GeneratorExp) and len(args[0].generators) == 1:
+                g = args[0].generators[0]
+                if isinstance(g.target, ast.Name) and not g.ifs:
+                    lt, lty = self._as_list(g.iter, env)
+                    inner = dict(env)
+                    inner[g.target.id] = (g.target.id, lty[5:])
+                    c = self.cond(args[0].elt, inner)
+                    return f"({lt}.countP (fun {g.target.id} => decide {c}))", "Nat"
+            raise Untranslatable("call " + ast.unparse(e))
+        raise Untranslatable(ast.unparse(e))
+
+    def cond(self, e, env):
+        """a Lean proposition (decidable)"""
+        if isinstance(e, ast.BoolOp):
+            op = " ∧ " if isinstance(e.op, ast.And) else " ∨ "
+            return "(" + op.join(self.cond(v, env) for v in e.values) + ")"
+        if isinstance(e, ast.UnaryOp) and isinstance(e.op, (ast.Not, ast.Invert)):
+            return f"(¬ {self.cond(e.operand, env)})"
+        if isinstance(e, ast.Compare):
+            parts = []
+            left = e.left
+            for op, right in zip(e.ops, e.comparators):
+                if isinstance(op, (ast.Is, ast.IsNot)) and isinstance(right, ast.Constant) and right.value is None:
+                    _a, ta = self.expr(left, env)
+                    if ta in ("Rat", "Option Rat"):   # a float (NaN included) is never None
+                        parts.append("False" if isinstance(op, ast.Is) else "True")
+                        left = right
+                        continue
+                    raise Untranslatable("None-test of a value of type " + str(ta))
+                if isinstance(op, (ast.In, ast.NotIn)):
+                    a, ta = self.expr(left, env)
+                    l, lty = self._as_list(right, env, ta)
+                    self._settle(a, ta, lty[5:])
+                    parts.append(f"{a} ∈ {l}" if isinstance(op, ast.In) else f"¬ {a} ∈ {l}")
+                else:
+                    sym = {ast.Lt: "<", ast.LtE: "≤", ast.Gt: ">", ast.GtE: "≥", ast.Eq: "=", ast.NotEq: "≠"}.get(type(op))
+                    if sym is None:
+                        raise Untranslatable(ast.unparse(e))
+                    a, ta = self.expr(left, env)
+                    b, tb = self.expr(right, env)
+                    self._unify(a, ta, b, tb)
+                    parts.append(f"{a} {sym} {b}")
+                left = right
+            if len(parts) == 1 and parts[0] in ("True", "False"):
+                return parts[0]
+            return "(" + " ∧ ".join(parts) + ")"
+        if isinstance(e, ast.Constant) and isinstance(e.value, bool):
+            return "True" if e.value else "False"
+        if isinstance(e, ast.Compare) and False:
+            pass
+        # truthiness of a value
+        if isinstance(e, ast.Name) and self.column_lists and e.id in self.table_names and e.id not in env:
+            return f"({self.param(e.id + '_len', 'Nat', col='len')[0]} ≠ 0)"   # a table is true when it has rows
+        if isinstance(e, ast.Name) and e.id in env and len(env[e.id]) == 2 and env[e.id][1] == "Prop":
+            return env[e.id][0]
+        t, ty = self.expr(e, env)
+        if ty is None:
+            ty = self._settle(t, ty, self.num)
+        if ty in self.NUMERIC or ty == "num":
+            return f"({t} ≠ 0)"
+        if ty == "Bool":
+            return f"({t} = true)"
+        if ty == "String":
+            return f'({t} ≠ "")'
+        if str(ty).startswith("List "):
+            return f"({t} ≠ [])"
+        raise Untranslatable("truth value of " + ast.unparse(e))
+
+    # -- one iteration of a loop / a straight-line block that yields ------------------------------------------------
+    def _slice_pair(self, e, env):
+        """`wrapper(table.iloc[a:b])` / `table.iloc[a:b]` -> (a, some b) / (a, none); None if `e` is not such a slice"""
+        x = e
+        while isinstance(x, ast.Call) and len(x.args) == 1 and not x.keywords and isinstance(x.func, ast.Attribute):
+            x = x.args[0]
+        if isinstance(x, ast.Subscript) and isinstance(x.value, ast.Attribute) and x.value.attr == "iloc" \
+                and isinstance(x.slice, ast.Slice) and x.slice.step is None:
+            lo = ("0", "num") if x.slice.lower is None else self.expr(x.slice.lower, env)
+            self._settle(lo[0], lo[1], "Nat")
+            if x.slice.upper is None:
+                return f"({lo[0]}, none)"
+            hi = self.expr(x.slice.upper, env)
+            self._settle(hi[0], hi[1], "Nat")
+            return f"({lo[0]}, some {hi[0]})"
+        return None
+
+    opaque_calls = ()
+
+    def _first_row(self, v):
+        """`table[0]`, `table[0].copy()`, `table.iloc[0]`"""
+        if isinstance(v, ast.Call) and isinstance(v.func, ast.Attribute) and v.func.attr == "copy" and not v.args:
+            v = v.func.value
+        if isinstance(v, ast.Subscript) and isinstance(v.slice, ast.Constant) and v.slice.value == 0:
+            b = v.value
+            if isinstance(b, ast.Attribute) and b.attr == "iloc":
+                b = b.value
+            return isinstance(b, ast.Name) and b.id in self.table_names
+        return False
+
+    def yielded(self, e, env):
+        if isinstance(e, ast.Name) and e.id in env and env[e.id][0] == "REC":
+            # a row record: the fields in table order; a field that was not assigned is the first row's
+            rec, out = env[e.id][1], []
+            for col in self.RECORD_ORDER:
+                if col in rec:
+                    out.append(rec[col])
+                elif col in self.COLUMNS and col != "probes":
+                    t, ty = self.param(col, "List " + self.COLUMNS[col], col=col)
+                    out.append(f"({t}.headD {self._zero(ty[5:])})")
+            return "(" + ", ".join(out) + ")"
+        if isinstance(e, ast.Tuple):
+            return "(" + ", ".join(self.yielded(x, env) for x in e.elts) + ")"
+        sp = self._slice_pair(e, env)
+        if sp is not None:
+            return sp
+        return self.expr(e, env)[0]
+
+    def step(self, stmts, env, ys, state):
+        """the rest of one iteration: a term of type `List Y` (no loop-carried variables) or `List Y × S₁ × …`"""
+        if not stmts or isinstance(stmts[0], ast.Continue):
+            out = "[" + ", ".join(ys) + "]"
+            if not state:
+                return out
+            return "(" + ", ".join([out] + [self.expr(ast.Name(id=v, ctx=ast.Load()), env)[0] for v in state]) + ")"
+        s, rest = stmts[0], list(stmts[1:])
+        if isinstance(s, ast.Expr):
+            v = s.value
+            if isinstance(v, ast.Constant):
+                return self.step(rest, env, ys, state)
+            if isinstance(v, ast.Yield) and v.value is not None:
+                return self.step(rest, env, ys + [self.yielded(v.value, env)], state)
+            if isinstance(v, ast.Call) and isinstance(v.func, ast.Attribute):
+                if isinstance(v.func.value, ast.Name) and v.func.value.id == "logging":
+                    return self.step(rest, env, ys, state)
+                if v.func.attr == "append" and len(v.args) == 1 and not v.keywords:
+                    return self.step(rest, env, ys + [self.yielded(v.args[0], env)], state)
+            raise Untranslatable("statement " + ast.unparse(s)[:80])
+        if isinstance(s, ast.Assign) and len(s.targets) == 1 and isinstance(s.targets[0], ast.Name) \
+                and self.column_lists and self._first_row(s.value):
+            env = dict(env)
+            env[s.targets[0].id] = ("REC", {})   # a copy of the table's first row
+            return self.step(rest, env, ys, state)
+        if isinstance(s, ast.Assign) and len(s.targets) == 1 and isinstance(s.targets[0], ast.Subscript) \
+                and isinstance(s.targets[0].value, ast.Name) and s.targets[0].value.id in env \
+                and env[s.targets[0].value.id][0] == "REC" and isinstance(s.targets[0].slice, ast.Constant) \
+                and s.targets[0].slice.value in self.RECORD_ORDER:
+            env = dict(env)
+            rec = dict(env[s.targets[0].value.id][1])
+            rec[s.targets[0].slice.value] = self.expr(s.value, env)[0]
+            env[s.targets[0].value.id] = ("REC", rec)
+            return self.step(rest, env, ys, state)
+        if isinstance(s, ast.Assign) and len(s.targets) == 1 and isinstance(s.targets[0], ast.Name) \
+                and isinstance(s.value, ast.Call) and isinstance(s.value.func, ast.Name) \
+                and s.targets[0].id in self.hints and s.value.func.id in self.opaque_calls:
+            env = dict(env)
+            env[s.targets[0].id] = self.param(s.targets[0].id)   # the result of another module's function
+            return self.step(rest, env, ys, state)
+        if isinstance(s, ast.Assign) and len(s.targets) == 1 and isinstance(s.targets[0], ast.Name):
+            env = dict(env)
+            if isinstance(s.value, (ast.Compare, ast.BoolOp)):
+                env[s.targets[0].id] = (self.cond(s.value, env), "Prop")
+            else:
+                env[s.targets[0].id] = self.expr(s.value, env)
+            return self.step(rest, env, ys, state)
+        if isinstance(s, ast.AugAssign) and isinstance(s.target, ast.Name) and isinstance(s.op, (ast.BitOr, ast.BitAnd)) \
+                and s.target.id in env and env[s.target.id][1] == "Prop":
+            env = dict(env)
+            op = "∨" if isinstance(s.op, ast.BitOr) else "∧"
+            env[s.target.id] = (f"({env[s.target.id][0]} {op} {self.cond(s.value, env)})", "Prop")
+            return self.step(rest, env, ys, state)
+        if isinstance(s, ast.Return) and not state and not ys and s.value is not None and self.column_lists:
+            # a function of whole columns that may return NaN: `Option`, NaN = none
+            if ast.unparse(s.value) in ("np.nan", "numpy.nan", "math.nan", "float('nan')"):
+                return "none"
+            return f"some {self.expr(s.value, env)[0]}"
+        if isinstance(s, ast.Return) and not state and not ys and s.value is not None:
+            v = s.value
+            if isinstance(v, ast.Subscript) and isinstance(v.value, ast.Name) and v.value.id in self.table_names:
+                return f"decide {self.cond(v.slice, env)}"   # `table[mask]`: the rows it keeps
+            return self.expr(v, env)[0]
+        if isinstance(s, ast.If) and not s.orelse and all(
+                isinstance(b, ast.Expr) and isinstance(b.value, ast.Call) and isinstance(b.value.func, ast.Attribute)
+                and isinstance(b.value.func.value, ast.Name) and b.value.func.value.id == "logging" for b in s.body):
+            return self.step(rest, env, ys, state)   # an `if` that only logs
+        if isinstance(s, ast.If):
+            c = self.cond(s.test, env)
+            if c == "True":
+                return self.step(list(s.body) + rest, dict(env), list(ys), state)
+            if c == "False":
+                return self.step(list(s.orelse) + rest, dict(env), list(ys), state)
+            th = self.step(list(s.body) + rest, dict(env), list(ys), state)
+            el = self.step(list(s.orelse) + rest, dict(env), list(ys), state)
+            return f"(if {c} then {th} else {el})"
+        raise Untranslatable(type(s).__name__ + ": " + ast.unparse(s)[:80])
+
+    # -- emission ------------------------------------------------------------------------------------------------
+    def ordered(self):
+        """the parameters in CANONICAL order, so that a rewrite which only changes where a name is first used keeps
+        the signature: the enclosing function's own parameters and the loop targets (`first`, in that order), then the
+        fields / columns / lengths read off rows and tables (in table order, equal ones in order of first use), then
+        any other free name in order of first use"""
+        use = {n: k for k, n in enumerate(self.params)}
+
+        def key(n):
+            if n in self.first:
+                return (0, self.first.index(n), 0)
+            if n in self.derived:
+                return (1, self.derived[n], use[n])
+            return (2, use[n], 0)
+        return sorted(self.params, key=key)
+
+    def signature(self):
+        out = []
+        for name in self.ordered():
+            ty = self.params[name]
+            ty = ty or self.num
+            out.append(f"({name} : {ty})")
+        return " ".join(out)
+
+    def define(self, lean_name, ret, body, comment=None):
+        doc = f"/-- {comment} -/\n" if comment else ""
+        sig = self.signature()
+        return doc + f"def {lean_name} {sig + ' ' if sig else ''}: {ret} :=\n  {body}", self.ordered()
+
+
+def emit_gtyped(o, lean_name, build, comment=None):
+    """`build()` returns (GFn, return type, body); a piece outside the subset leaves a comment instead of a definition,
+    so that exactly the theorems about it stop checking"""
+    try:
+        t, ret, body = build()
+        text, params = t.define(lean_name, ret, body, comment)
+    except (Untranslatable, KeyError, IndexError, StopIteration, OSError, SyntaxError, AttributeError) as e:
+        o.lines.append(f"-- NOT TRANSLATED: {lean_name}: {type(e).__name__}: {str(e)[:200]}".replace("\n", " "))
+        o.info[lean_name] = {"error": str(e)[:200]}
+        return
+    o.lines.append(text)
+    o.info[lean_name] = {"params": params}
